@@ -235,6 +235,18 @@ def interleave(rng, seqs):
     return out
 
 
+# Properties whose statement speaks of goroutines exiting ("goroutines have exited", "never leak", "block forever",
+# "stop"): only for these is a goroutine left behind a violation of the property. For the others the census is
+# recorded in the evidence and compared with the model (a difference there is a broken correspondence, reported
+# as such), but the direct oracle does not call it a violation: the property holds on a tree that keeps a helper
+# goroutine around.
+CENSUS_PROPS = {"C06", "C07", "C09", "C11"}
+
+
+def census_claimed(ctx):
+    return ctx.prop in CENSUS_PROPS
+
+
 def judge(ctx, scripts, evaluate, label=None, sub="lockstep", binp=None, record=True):
     """Run scripts on the implementation, check the model admits the observations, apply the
     property's direct oracle `evaluate(script, Trace) -> [Violation]`. Returns list of Traces (or None)."""
@@ -274,7 +286,9 @@ def judge(ctx, scripts, evaluate, label=None, sub="lockstep", binp=None, record=
             ctx.broken.append({"kind": "correspondence", "detail": "model does not admit the implementation's observations", "case": s,
                                "impl": " ".join(obs[i]), "model": verdicts[i]})
         ctx.violations += evaluate(s, tr)
-        if tr.end and tr.end != (0, 0):
+        if tr.end:
+            ctx.hist("teardown_outputs_open_goroutines_left", "%d/%d" % tr.end)
+        if tr.end and tr.end != (0, 0) and census_claimed(ctx):
             ctx.violations.append(vlib.Violation("impl", "%s: %d output(s) never closed / %d goroutine(s) left after cancel, close and drain" % (st, tr.end[0], tr.end[1]),
                                                  case=s, key={"stage": cfg["stage"], "class": "leak"}))
         if i % 131 == 0:
